@@ -27,10 +27,13 @@ import (
 
 type scenario13 struct {
 	Name    string
-	Vary    bool   // every goroutine's table has another length (the selector text is the same)
-	Shared  bool   // one document object read by every goroutine
-	Fresh   bool   // selector texts no goroutine has used before (cache insertions)
-	Cold    bool   // nothing is evaluated before the goroutines start, and every round begins right after a
+	Vary    bool // every goroutine's table has another length (the selector text is the same)
+	Shared  bool // one document object read by every goroutine
+	Fresh   bool // selector texts no goroutine has used before (cache insertions)
+	Typed   bool // the tables are typed Go slices ([]map[string]any) of different lengths that begin at one address (prefixes of one list)
+	Refused bool // every other goroutine runs the statement on a table whose rows are arrays: alone that is an error (the join
+	// cannot merge such rows) - and next to it the healthy PARALLEL joins have to go on returning their rows
+	Cold bool // nothing is evaluated before the goroutines start, and every round begins right after a
 	// RegisterImmediateFunction (which has returned): whatever the library derives lazily from its registries
 	// is derived by the concurrent queries themselves. The expectation is written down, not obtained from the library
 	SQL     string // %s = table name
@@ -65,6 +68,8 @@ var scenarios13 = []scenario13{
 	{Name: "shared-star-limit", Shared: true, SQL: "SELECT * FROM %s LIMIT 2 OFFSET 1"},
 	{Name: "shared-distinct-orderby", Shared: true, SQL: "SELECT DISTINCT g FROM %s ORDER BY g DESC"},
 	{Name: "shared-unaliased-join", Shared: true, SQL: "SELECT * FROM %s JOIN u ON a = c"},
+	{Name: "separate-typed-prefixes", Typed: true, SQL: "SELECT a FROM %s WHERE a > 0"},
+	{Name: "refused-next-to-healthy", Refused: true, SQL: "SELECT * FROM %s x PARALLEL JOIN u y ON x.a >= y.c"},
 	{Name: "cold-functions", Cold: true, SQL: "SELECT CONCAT(s, 'x') AS v, IF(a > 3, 'hi', 'lo') AS w FROM %s"},
 	{Name: "cold-functions-shared", Cold: true, Shared: true, SQL: "SELECT TO_UPPER(s) AS v, ASYNC.slow(a) AS w FROM %s WHERE a < 3"},
 	{Name: "shared-async", Shared: true, SQL: "SELECT a, ASYNC.slow(a) AS v, SPINASYNC.slow(a) FROM %s"},
@@ -112,6 +117,9 @@ func RunScenario13(name string, n, iters int) int {
 			os.Exit(3)
 		}
 		return out.Rows
+	}
+	if sc.Typed || sc.Refused {
+		return runSpecial13(sc, n, iters)
 	}
 	shared := doc13("t")
 	var wantShared []any
@@ -200,6 +208,74 @@ func RunScenario13(name string, n, iters int) int {
 	if !Equal(any(shared), any(doc13("t"))) {
 		fmt.Fprintln(os.Stderr, "SHARED-DOCUMENT-MODIFIED")
 		return 6
+	}
+	if mismatches > 0 {
+		fmt.Fprintln(os.Stderr, "CROSSTALK", mismatches, first.Load())
+		return 4
+	}
+	return 0
+}
+
+// runSpecial13: scenarios whose expectation is written down here, not obtained from the library
+func runSpecial13(sc *scenario13, n, iters int) int {
+	var mismatches int64
+	var first atomic.Value
+	note := func(format string, a ...any) {
+		if atomic.AddInt64(&mismatches, 1) == 1 {
+			first.Store(fmt.Sprintf(format, a...))
+		}
+	}
+	list := make([]map[string]any, 12)
+	for i := range list {
+		list[i] = map[string]any{"a": float64(i + 1)}
+	}
+	var wg sync.WaitGroup
+	start := make(chan struct{})
+	for g := 0; g < n; g++ {
+		wg.Add(1)
+		go func(g int) {
+			defer wg.Done()
+			<-start
+			for i := 0; i < iters; i++ {
+				switch {
+				case sc.Typed:
+					k := 2 + (g+i)%9
+					out := Run(map[string]any{"t": list[:k]}, fmt.Sprintf(sc.SQL, "t"), false)
+					want := []any{}
+					for j := 1; j <= k; j++ {
+						want = append(want, map[string]any{"a": float64(j)})
+					}
+					if out.Err != nil || out.Panic != nil || Canon(any(out.Rows)) != Canon(any(want)) {
+						note("goroutine %d iteration %d: a table of %d rows returned %s", g, i, k, out.Describe())
+					}
+				case sc.Refused && g%2 == 1:
+					grid := []any{}
+					for j := 0; j < 16; j++ {
+						grid = append(grid, []any{map[string]any{"a": float64(j)}})
+					}
+					out := Run(map[string]any{"t": grid, "u": []any{map[string]any{"c": float64(1)}}}, "SELECT * FROM t PARALLEL JOIN u ON t.a >= u.c", false)
+					if out.Panic != nil {
+						note("goroutine %d iteration %d: panic escaped: %v", g, i, out.Panic)
+					}
+				default:
+					doc := doc13("t")
+					out := Run(doc, fmt.Sprintf(sc.SQL, "t"), false)
+					// rows of t with a >= 2 meet c = 2, those with a >= 5 also c = 5: 5 + 2 pairs
+					if out.Err != nil || out.Panic != nil || len(out.Rows) != 7 {
+						note("goroutine %d iteration %d: the healthy join returned %s", g, i, out.Describe())
+					}
+				}
+			}
+		}(g)
+	}
+	close(start)
+	done := make(chan struct{})
+	go func() { wg.Wait(); close(done) }()
+	select {
+	case <-done:
+	case <-time.After(60 * time.Second):
+		fmt.Fprintln(os.Stderr, "DEADLOCK-OR-HANG: goroutines did not finish within 60s")
+		return 5
 	}
 	if mismatches > 0 {
 		fmt.Fprintln(os.Stderr, "CROSSTALK", mismatches, first.Load())
